@@ -167,8 +167,13 @@ func (k Keeper) AllocateSellingCoin(ctx context.Context, auction types.AuctionI,
 		ioCoins[bidder] = inout
 	}
 
-	// Send all inputs
-	for _, inout := range ioCoins {
+	// Send all inputs in the sorted order of bidders; ranging over the map would
+	// make the order of transfers and events differ from node to node
+	for _, bidder := range bidders {
+		inout, ok := ioCoins[bidder]
+		if !ok {
+			continue
+		}
 		if err := k.bankKeeper.InputOutputCoins(ctx, inout.input, inout.outputs); err != nil {
 			return err
 		}
@@ -273,8 +278,13 @@ func (k Keeper) RefundPayingCoin(ctx context.Context, auction types.AuctionI, mI
 		ioCoins[bidder] = inout
 	}
 
-	// Send all inputs.
-	for _, inout := range ioCoins {
+	// Send all inputs in the sorted order of bidders; ranging over the map would
+	// make the order of transfers and events differ from node to node
+	for _, bidder := range bidders {
+		inout, ok := ioCoins[bidder]
+		if !ok {
+			continue
+		}
 		if err := k.bankKeeper.InputOutputCoins(ctx, inout.input, inout.outputs); err != nil {
 			return err
 		}
